@@ -3,6 +3,8 @@ package main
 import (
 	"fmt"
 	"math/rand"
+	"os"
+	"strings"
 
 	"github.com/Oneledger/protocol/consensus"
 	"github.com/Oneledger/protocol/data/balance"
@@ -47,7 +49,11 @@ func runSubsys(sc subsysCfg, tier string) int {
 	for g, n := range sc.gates {
 		r.Gate(g, n*nh)
 	}
+	only := os.Getenv("VERIF_ONLY") // triage aid: run a single history index
 	parallel(nh, 8, func(i int) {
+		if only != "" && only != fmt.Sprint(i) {
+			return
+		}
 		hseed := seed*1000 + int64(i)
 		params := sc.params(i, hseed)
 		params.ChainID = fmt.Sprintf("OneLedger-%s-%d", sc.id, hseed)
@@ -76,6 +82,26 @@ func runSubsys(sc subsysCfg, tier string) int {
 			return nil
 		}
 		cfg.OnBlock = func(run *hist.Runner, blk *hist.Block) bool {
+			if dbg := os.Getenv("VERIF_DEBUG_H"); dbg != "" {
+				var lo, hi int64
+				fmt.Sscanf(dbg, "%d-%d", &lo, &hi)
+				if blk.H >= lo && blk.H <= hi {
+					fmt.Printf("DEBUG block %d time=%d begin=%v\n", blk.H, run.TimeMs, blk.Begin.Events)
+					if pf := os.Getenv("VERIF_DEBUG_KEYS"); pf != "" {
+						for k, v := range blk.Cur {
+							if strings.HasPrefix(k, pf) {
+								fmt.Printf("DEBUG   key %q = %s\n", k, cut(string(v), 700))
+							}
+						}
+					}
+					for _, t := range blk.Txs {
+						fmt.Printf("DEBUG   tx %s code=%d note=%q log=%s payload=%s\n", t.Kind, t.Call.Code, t.Note, cut(t.Call.Log, 100), cut(fmt.Sprint(mon.Payload(t.Bytes)), 300))
+					}
+					for _, t := range blk.Rejected {
+						fmt.Printf("DEBUG   rejected %s note=%q %s\n", t.Kind, t.Note, cut(t.Meta["check_log"], 120))
+					}
+				}
+			}
 			r.Count("blocks", 1)
 			nt := len(blk.Txs) > 0
 			if sc.nontriv != nil {
